@@ -130,7 +130,7 @@ theorem Inv.oScanT {s : State} (hI : Inv s) {a : Actor} {f cur : Nat} {l0 seen :
     obtain ⟨c, hc1, hc2⟩ := ((hI.listOk f).2.2 m hg).2.2.2 h1.2.1
     rw [h1.2.2.1] at hc1; injection hc1 with hc1; subst hc1; exact hc2
   obtain ⟨kindC, kindF, lockOk, frWait, freshOk, freshUniq, freshVer, freshVerT, freshNode, wFreeTaken, preOk, postOk, ownOk, rsmTaken,
-    freeTaken, pubNode, waiting, parked, listOk, scanOk, prevOk, placed, oScanOk, oNoneOk, aUnlockOk, aNextOk, aResumeOk, aFreeOk,
+    freeTaken, pubNode, waiting, parked, listOk, scanOk, prevOk, placed, freshHolder, scanL0, unlockL0, oScanOk, oNoneOk, aUnlockOk, aNextOk, aResumeOk, aFreeOk,
     noRead, cTakeOk, cRemoveOk, allocUsed, noBad⟩ := hI
   have hmem : ∀ g m, MemOk s g m → m ≠ cur →
       MemOk (({ s.unlinkFirst f cur with box := upd (s.unlinkFirst f cur).box cur { (s.unlinkFirst f cur).box cur with taken := true, own := some a } }).setPc a
@@ -141,14 +141,14 @@ theorem Inv.oScanT {s : State} (hI : Inv s) {a : Actor} {f cur : Nat} {l0 seen :
     have := unlinkNodes_rest s.node f cur m
     grind [updA, upd]
   constructor
-  case kindC => first | (ul_auto; done) | (trace "FAIL kindC"; sorry)
-  case kindF => first | (ul_auto; done) | (trace "FAIL kindF"; sorry)
-  case lockOk => first | (ul_auto; done) | (trace "FAIL lockOk"; sorry)
-  case frWait => first | (ul_auto; done) | (trace "FAIL frWait"; sorry)
-  case freshOk => first | (ul_auto; done) | (trace "FAIL freshOk"; sorry)
-  case freshUniq => first | (ul_auto; done) | (trace "FAIL freshUniq"; sorry)
-  case freshVer => first | (ul_auto; done) | (trace "FAIL freshVer"; sorry)
-  case freshVerT => first | (ul_auto; done) | (trace "FAIL freshVerT"; sorry)
+  case kindC => ul_auto
+  case kindF => ul_auto
+  case lockOk => ul_auto
+  case frWait => ul_auto
+  case freshOk => ul_auto
+  case freshUniq => ul_auto
+  case freshVer => ul_auto
+  case freshVerT => ul_auto
   case freshNode =>
     intro h' f' v' n' ver' hh
     have hpc : s.pc (.fr h') = .wLock f' v' n' ver' ∨ ∃ m, s.pc (.fr h') = .wLink f' v' n' ver' m := by
@@ -162,19 +162,19 @@ theorem Inv.oScanT {s : State} (hI : Inv s) {a : Actor} {f cur : Nat} {l0 seen :
     ul_simp
     rw [unlinkNodes_other _ _ _ _ h1 h2]
     exact hold
-  case wFreeTaken => first | (ul_auto; done) | (trace "FAIL wFreeTaken"; sorry)
+  case wFreeTaken => ul_auto
   case preOk =>
     have hr := hrsm hnt
     have hc1 := hcur.1
     have hc2 := hcur.2.1
     ul_auto
-  case postOk => first | (ul_auto; done) | (trace "FAIL postOk"; sorry)
-  case ownOk => first | (ul_auto; done) | (trace "FAIL ownOk"; sorry)
-  case rsmTaken => first | (ul_auto; done) | (trace "FAIL rsmTaken"; sorry)
-  case freeTaken => first | (ul_auto; done) | (trace "FAIL freeTaken"; sorry)
-  case pubNode => first | (ul_auto; done) | (trace "FAIL pubNode"; sorry)
-  case waiting => first | (ul_auto; done) | (trace "FAIL waiting"; sorry)
-  case parked => first | (ul_auto; done) | (trace "FAIL parked"; sorry)
+  case postOk => ul_auto
+  case ownOk => ul_auto
+  case rsmTaken => ul_auto
+  case freeTaken => ul_auto
+  case pubNode => ul_auto
+  case waiting => ul_auto
+  case parked => ul_auto
   case listOk =>
     intro g
     obtain ⟨c1, c2, c3⟩ := listOk g
@@ -278,9 +278,12 @@ theorem Inv.oScanT {s : State} (hI : Inv s) {a : Actor} {f cur : Nat} {l0 seen :
             intro e; subst e
             rcases h2 with h2 | h2 <;> (rw [hp] at h2; cases h2)
           exact ⟨c, by simp [upd, hmc, h1], by simp [updA, hca, h2]⟩
-  case placed => first | (ul_auto; done) | (trace "FAIL placed"; sorry)
-  case oScanOk => first | (ul_auto; done) | (trace "FAIL oScanOk"; sorry)
-  case oNoneOk => first | (ul_auto; done) | (trace "FAIL oNoneOk"; sorry)
+  case placed => ul_auto
+  case freshHolder => ul_auto
+  case scanL0 => ul_auto
+  case unlockL0 => ul_auto
+  case oScanOk => ul_auto
+  case oNoneOk => ul_auto
   case aUnlockOk =>
     intro b g hd took skip l0' hb
     have hba : b ≠ a := by intro e; subst e; revert hb; ul_simp; simp [updA]
@@ -325,11 +328,11 @@ theorem Inv.oScanT {s : State} (hI : Inv s) {a : Actor} {f cur : Nat} {l0 seen :
       rcases hpre_glist b cur (by simp [hb', Pc.pre, h1, e]) (by simp [hgl]) with h' | h' <;> (rw [hb'] at h'; cases h')
     ul_simp
     exact ⟨h1, h2, NChain.unlinkNodes hcn h3, h4, h5⟩
-  case noRead => first | (ul_auto; done) | (trace "FAIL noRead"; sorry)
-  case cTakeOk => first | (ul_auto; done) | (trace "FAIL cTakeOk"; sorry)
-  case cRemoveOk => first | (ul_auto; done) | (trace "FAIL cRemoveOk"; sorry)
-  case allocUsed => first | (ul_auto; done) | (trace "FAIL allocUsed"; sorry)
-  case noBad => first | (ul_auto; done) | (trace "FAIL noBad"; sorry)
+  case noRead => ul_auto
+  case cTakeOk => ul_auto
+  case cRemoveOk => ul_auto
+  case allocUsed => ul_auto
+  case noBad => ul_auto
 
 set_option maxHeartbeats 20000000 in
 /-- the take fails on the last node: the scan ends empty-handed -/
@@ -374,7 +377,7 @@ theorem Inv.oScanFN {s : State} (hI : Inv s) {a : Actor} {f cur : Nat} {l0 seen 
     obtain ⟨c, hc1, hc2⟩ := ((hI.listOk f).2.2 m hg).2.2.2 h1.2.1
     rw [h1.2.2.1] at hc1; injection hc1 with hc1; subst hc1; exact hc2
   obtain ⟨kindC, kindF, lockOk, frWait, freshOk, freshUniq, freshVer, freshVerT, freshNode, wFreeTaken, preOk, postOk, ownOk, rsmTaken,
-    freeTaken, pubNode, waiting, parked, listOk, scanOk, prevOk, placed, oScanOk, oNoneOk, aUnlockOk, aNextOk, aResumeOk, aFreeOk,
+    freeTaken, pubNode, waiting, parked, listOk, scanOk, prevOk, placed, freshHolder, scanL0, unlockL0, oScanOk, oNoneOk, aUnlockOk, aNextOk, aResumeOk, aFreeOk,
     noRead, cTakeOk, cRemoveOk, allocUsed, noBad⟩ := hI
   obtain ⟨cc, hcc1, hcc2⟩ := hcur.2.2.2 ht
   have hcca : cc ≠ a := by
@@ -388,14 +391,14 @@ theorem Inv.oScanFN {s : State} (hI : Inv s) {a : Actor} {f cur : Nat} {l0 seen 
     have := unlinkNodes_rest s.node f cur m
     grind [updA, upd]
   constructor
-  case kindC => first | (ul_auto; done) | (trace "FAIL kindC"; sorry)
-  case kindF => first | (ul_auto; done) | (trace "FAIL kindF"; sorry)
-  case lockOk => first | (ul_auto; done) | (trace "FAIL lockOk"; sorry)
-  case frWait => first | (ul_auto; done) | (trace "FAIL frWait"; sorry)
-  case freshOk => first | (ul_auto; done) | (trace "FAIL freshOk"; sorry)
-  case freshUniq => first | (ul_auto; done) | (trace "FAIL freshUniq"; sorry)
-  case freshVer => first | (ul_auto; done) | (trace "FAIL freshVer"; sorry)
-  case freshVerT => first | (ul_auto; done) | (trace "FAIL freshVerT"; sorry)
+  case kindC => ul_auto
+  case kindF => ul_auto
+  case lockOk => ul_auto
+  case frWait => ul_auto
+  case freshOk => ul_auto
+  case freshUniq => ul_auto
+  case freshVer => ul_auto
+  case freshVerT => ul_auto
   case freshNode =>
     intro h' f' v' n' ver' hh
     have hpc : s.pc (.fr h') = .wLock f' v' n' ver' ∨ ∃ m, s.pc (.fr h') = .wLink f' v' n' ver' m := by
@@ -409,15 +412,15 @@ theorem Inv.oScanFN {s : State} (hI : Inv s) {a : Actor} {f cur : Nat} {l0 seen 
     ul_simp
     rw [unlinkNodes_other _ _ _ _ h1 h2]
     exact hold
-  case wFreeTaken => first | (ul_auto; done) | (trace "FAIL wFreeTaken"; sorry)
-  case preOk => first | (ul_auto; done) | (trace "FAIL preOk"; sorry)
-  case postOk => first | (ul_auto; done) | (trace "FAIL postOk"; sorry)
-  case ownOk => first | (ul_auto; done) | (trace "FAIL ownOk"; sorry)
-  case rsmTaken => first | (ul_auto; done) | (trace "FAIL rsmTaken"; sorry)
-  case freeTaken => first | (ul_auto; done) | (trace "FAIL freeTaken"; sorry)
-  case pubNode => first | (ul_auto; done) | (trace "FAIL pubNode"; sorry)
-  case waiting => first | (ul_auto; done) | (trace "FAIL waiting"; sorry)
-  case parked => first | (ul_auto; done) | (trace "FAIL parked"; sorry)
+  case wFreeTaken => ul_auto
+  case preOk => ul_auto
+  case postOk => ul_auto
+  case ownOk => ul_auto
+  case rsmTaken => ul_auto
+  case freeTaken => ul_auto
+  case pubNode => ul_auto
+  case waiting => ul_auto
+  case parked => ul_auto
   case listOk =>
     intro g
     obtain ⟨c1, c2, c3⟩ := listOk g
@@ -521,8 +524,11 @@ theorem Inv.oScanFN {s : State} (hI : Inv s) {a : Actor} {f cur : Nat} {l0 seen 
             intro e; subst e
             rcases h2 with h2 | h2 <;> (rw [hp] at h2; cases h2)
           exact ⟨c, by simp [upd, hmc, h1], by simp [updA, hca, h2]⟩
-  case placed => first | (ul_auto; done) | (trace "FAIL placed"; sorry)
-  case oScanOk => first | (ul_auto; done) | (trace "FAIL oScanOk"; sorry)
+  case placed => ul_auto
+  case freshHolder => ul_auto
+  case scanL0 => ul_auto
+  case unlockL0 => ul_auto
+  case oScanOk => ul_auto
   case oNoneOk =>
     intro b g l0' seen' hb
     by_cases hba : b = a
@@ -588,11 +594,11 @@ theorem Inv.oScanFN {s : State} (hI : Inv s) {a : Actor} {f cur : Nat} {l0 seen 
       rcases hpre_glist b cur (by simp [hb', Pc.pre, h1, e]) (by simp [hgl]) with h' | h' <;> (rw [hb'] at h'; cases h')
     ul_simp
     exact ⟨h1, h2, NChain.unlinkNodes hcn h3, h4, h5⟩
-  case noRead => first | (ul_auto; done) | (trace "FAIL noRead"; sorry)
-  case cTakeOk => first | (ul_auto; done) | (trace "FAIL cTakeOk"; sorry)
-  case cRemoveOk => first | (ul_auto; done) | (trace "FAIL cRemoveOk"; sorry)
-  case allocUsed => first | (ul_auto; done) | (trace "FAIL allocUsed"; sorry)
-  case noBad => first | (ul_auto; done) | (trace "FAIL noBad"; sorry)
+  case noRead => ul_auto
+  case cTakeOk => ul_auto
+  case cRemoveOk => ul_auto
+  case allocUsed => ul_auto
+  case noBad => ul_auto
 
 set_option maxHeartbeats 20000000 in
 /-- the take fails, the scan goes on with the saved `next` -/
@@ -633,7 +639,7 @@ theorem Inv.oScanFS {s : State} (hI : Inv s) {a : Actor} {f cur : Nat} {l0 seen 
     obtain ⟨c, hc1, hc2⟩ := ((hI.listOk f).2.2 m hg).2.2.2 h1.2.1
     rw [h1.2.2.1] at hc1; injection hc1 with hc1; subst hc1; exact hc2
   obtain ⟨kindC, kindF, lockOk, frWait, freshOk, freshUniq, freshVer, freshVerT, freshNode, wFreeTaken, preOk, postOk, ownOk, rsmTaken,
-    freeTaken, pubNode, waiting, parked, listOk, scanOk, prevOk, placed, oScanOk, oNoneOk, aUnlockOk, aNextOk, aResumeOk, aFreeOk,
+    freeTaken, pubNode, waiting, parked, listOk, scanOk, prevOk, placed, freshHolder, scanL0, unlockL0, oScanOk, oNoneOk, aUnlockOk, aNextOk, aResumeOk, aFreeOk,
     noRead, cTakeOk, cRemoveOk, allocUsed, noBad⟩ := hI
   obtain ⟨cc, hcc1, hcc2⟩ := hcur.2.2.2 ht
   have hcca : cc ≠ a := by
@@ -647,14 +653,14 @@ theorem Inv.oScanFS {s : State} (hI : Inv s) {a : Actor} {f cur : Nat} {l0 seen 
     have := unlinkNodes_rest s.node f cur m
     grind [updA, upd]
   constructor
-  case kindC => first | (ul_auto; done) | (trace "FAIL kindC"; sorry)
-  case kindF => first | (ul_auto; done) | (trace "FAIL kindF"; sorry)
-  case lockOk => first | (ul_auto; done) | (trace "FAIL lockOk"; sorry)
-  case frWait => first | (ul_auto; done) | (trace "FAIL frWait"; sorry)
-  case freshOk => first | (ul_auto; done) | (trace "FAIL freshOk"; sorry)
-  case freshUniq => first | (ul_auto; done) | (trace "FAIL freshUniq"; sorry)
-  case freshVer => first | (ul_auto; done) | (trace "FAIL freshVer"; sorry)
-  case freshVerT => first | (ul_auto; done) | (trace "FAIL freshVerT"; sorry)
+  case kindC => ul_auto
+  case kindF => ul_auto
+  case lockOk => ul_auto
+  case frWait => ul_auto
+  case freshOk => ul_auto
+  case freshUniq => ul_auto
+  case freshVer => ul_auto
+  case freshVerT => ul_auto
   case freshNode =>
     intro h' f' v' n' ver' hh
     have hpc : s.pc (.fr h') = .wLock f' v' n' ver' ∨ ∃ m, s.pc (.fr h') = .wLink f' v' n' ver' m := by
@@ -668,15 +674,15 @@ theorem Inv.oScanFS {s : State} (hI : Inv s) {a : Actor} {f cur : Nat} {l0 seen 
     ul_simp
     rw [unlinkNodes_other _ _ _ _ h1 h2]
     exact hold
-  case wFreeTaken => first | (ul_auto; done) | (trace "FAIL wFreeTaken"; sorry)
-  case preOk => first | (ul_auto; done) | (trace "FAIL preOk"; sorry)
-  case postOk => first | (ul_auto; done) | (trace "FAIL postOk"; sorry)
-  case ownOk => first | (ul_auto; done) | (trace "FAIL ownOk"; sorry)
-  case rsmTaken => first | (ul_auto; done) | (trace "FAIL rsmTaken"; sorry)
-  case freeTaken => first | (ul_auto; done) | (trace "FAIL freeTaken"; sorry)
-  case pubNode => first | (ul_auto; done) | (trace "FAIL pubNode"; sorry)
-  case waiting => first | (ul_auto; done) | (trace "FAIL waiting"; sorry)
-  case parked => first | (ul_auto; done) | (trace "FAIL parked"; sorry)
+  case wFreeTaken => ul_auto
+  case preOk => ul_auto
+  case postOk => ul_auto
+  case ownOk => ul_auto
+  case rsmTaken => ul_auto
+  case freeTaken => ul_auto
+  case pubNode => ul_auto
+  case waiting => ul_auto
+  case parked => ul_auto
   case listOk =>
     intro g
     obtain ⟨c1, c2, c3⟩ := listOk g
@@ -780,9 +786,12 @@ theorem Inv.oScanFS {s : State} (hI : Inv s) {a : Actor} {f cur : Nat} {l0 seen 
             intro e; subst e
             rcases h2 with h2 | h2 <;> (rw [hp] at h2; cases h2)
           exact ⟨c, by simp [upd, hmc, h1], by simp [updA, hca, h2]⟩
-  case placed => first | (ul_auto; done) | (trace "FAIL placed"; sorry)
-  case oScanOk => first | (ul_auto; done) | (trace "FAIL oScanOk"; sorry)
-  case oNoneOk => first | (ul_auto; done) | (trace "FAIL oNoneOk"; sorry)
+  case placed => ul_auto
+  case freshHolder => ul_auto
+  case scanL0 => ul_auto
+  case unlockL0 => ul_auto
+  case oScanOk => ul_auto
+  case oNoneOk => ul_auto
   case aUnlockOk =>
     intro b g hd took skip l0' hb
     have hba : b ≠ a := by intro e; subst e; revert hb; ul_simp; simp [updA]
@@ -827,10 +836,10 @@ theorem Inv.oScanFS {s : State} (hI : Inv s) {a : Actor} {f cur : Nat} {l0 seen 
       rcases hpre_glist b cur (by simp [hb', Pc.pre, h1, e]) (by simp [hgl]) with h' | h' <;> (rw [hb'] at h'; cases h')
     ul_simp
     exact ⟨h1, h2, NChain.unlinkNodes hcn h3, h4, h5⟩
-  case noRead => first | (ul_auto; done) | (trace "FAIL noRead"; sorry)
-  case cTakeOk => first | (ul_auto; done) | (trace "FAIL cTakeOk"; sorry)
-  case cRemoveOk => first | (ul_auto; done) | (trace "FAIL cRemoveOk"; sorry)
-  case allocUsed => first | (ul_auto; done) | (trace "FAIL allocUsed"; sorry)
-  case noBad => first | (ul_auto; done) | (trace "FAIL noBad"; sorry)
+  case noRead => ul_auto
+  case cTakeOk => ul_auto
+  case cRemoveOk => ul_auto
+  case allocUsed => ul_auto
+  case noBad => ul_auto
 
 end Babylon.Coro
